@@ -87,6 +87,12 @@ def run(ctx):
                   sample={"writers": names, "changed": sorted(ch)})
         ctx.check(L.lift(ch.get(sidef, ("x",))) == NSTM, "inner:side-negated", "side to move is not negated exactly once: %s" % sym.show(L.lift(ch.get(sidef, ("x",))))[:80], where)
         epv = ch.get(epf)
+        if epv is not None and epv[0] == "field" and epv[1][0] == "post" and epv[2] == epf:
+            # the en-passant writer was not inlined (it has a loop): it is the single-argument writer of the position
+            # state whose effect `en_passant := argument` is C10's lock-step result
+            evs = [e for e in p.events if e.idx == epv[1][2] and e.kind == "call" and e.name == epv[1][1] and e.name in W]
+            if len(evs) == 1 and f.bodies[evs[0].name].argc == 2 and len(evs[0].args) == 2:
+                epv = evs[0].args[1]
         ctx.check(epv is not None and epv[0] == "agg" and epv[2] == "None", "inner:ep-cleared", "en-passant file is not cleared", where)
         ctx.check(len(wcalls) == 2, "writers:exactly-two", "position writers called on the clone: %s (expected the side toggle and the en-passant writer once each)" % names, where)
         # checkers unchanged
@@ -102,6 +108,9 @@ def run(ctx):
                 black = (e[1] == "Eq") == bool(c[1])
             if e[0] == "bin" and e[1] in ("Eq", "Ne") and {e[2], e[3]} == {("enum", BLACK[1], "White"), STM} and isinstance(c[1], int):
                 black = not ((e[1] == "Eq") == bool(c[1]))
+        if black is None:
+            from .common import enum_values, in_set3
+            black = in_set3(enum_values(f, [(L.lift(c[0]), c[1]) for c in p.conds], STM, BLACK[1]), {1})
         if black is None:
             ctx.fail("fullmove:undecided", "a path returns a board without deciding whether the side that passed is Black", where)
         elif black:
